@@ -3,6 +3,7 @@
 From Coq Require Import List ZArith NArith Bool.
 From TarsV Require Import Gen.Consts Rpc.ReqId Rpc.ReqIdProofs Conc.Pending Conc.PendingProofs Conc.C08Corr Conc.C08Sys Conc.C08SysProofs.
 From TarsV Require Xlate.ReqIdEquiv.
+From TarsV Require Xlate.RecvEventsEquiv.
 Import ListNotations.
 Open Scope Z_scope.
 
